@@ -236,6 +236,26 @@ def scan_rules(ctx, P):
                     if spec is not None and spec[0] is None and not spec[1]:
                         builtin.setdefault(q, []).append(x)
                         ob.ok("%s:min(key)" % q, "%s: %s" % (q, unparse(x)[:80]))
+                    elif spec is not None and spec[0] is not None and "OUTER" not in spec[0]:
+                        # min over a filtered list of the table's collection: L = [v for v in COLL if <the table's filters> (and KEY(v) < inf)]
+                        lc = x.args[0]
+                        if isinstance(lc, ast.Name):
+                            ds = [y for y in ast.walk(fn) if isinstance(y, ast.Assign) and any(isinstance(t, ast.Name) and t.id == lc.id for t in y.targets)]
+                            lc = ds[0].value if len(ds) == 1 else None
+                        lam = x.keywords[0].value
+                        if isinstance(lc, ast.ListComp) and len(lc.generators) == 1 and isinstance(lc.generators[0].target, ast.Name) and unparse(lc.elt) == lc.generators[0].target.id \
+                                and len(lam.args.args) == 1:
+                            g = lc.generators[0]
+                            var = g.target.id
+                            key = unparse(lam.body).replace(lam.args.args[0].arg + ".", var + ".")
+                            facts = {}
+                            for c_ in g.ifs:
+                                guards.assume(guards.norm(c_, unparse), True, facts)
+                            need = [(("truth", a_[1][1].replace("VAR", var)), False) if a_[0] == "not" else ((a_[0],) + tuple(t.replace("VAR", var) for t in a_[1:]), True) for a_ in spec[1]]
+                            extra = [a_ for a_ in facts if a_ not in [n_[0] for n_ in need] and not (a_ == ("isinf", key) and facts[a_] is False)]
+                            if unparse(g.iter) == spec[0] and all(facts.get(a_) is v_ for a_, v_ in need) and not extra:
+                                builtin.setdefault(q, []).append(x)
+                                ob.ok("%s:min(key) over filter" % q, "%s: min over [%s for %s in %s if ...] by %s" % (q, var, var, spec[0], key))
     for q, spec in SCAN_TABLE.items():
         if q not in found and q not in minfilters and q not in loose and q not in builtin:
             ctx.unrecognised("SCAN: no arg-min scan recognised in %s" % q)
